@@ -134,12 +134,13 @@ func (c *c14call) run(o *c14objs, baseStr string) (res string) {
 		r.SetSearch("")
 		r.SearchParams().Append("z", "1")
 		r.SetPathname("/zz")
-		r.SetHash("x")
+		r.SetHash("x y\"") // values that make a reporting-mode URL record validation entries
 		cl := o.base.Clone()
 		cl.SetHash("")
-		cl.SetSearch("")
+		cl.SetSearch("q=a b\"")
 		cl.SetHost("zz.example")
-		return r.Href(false) + "|" + cl.Href(false)
+		cl.SetPathname("/p q")
+		return r.Href(false) + "|" + cl.Href(false) + "|" + fmt.Sprint(len(r.ValidationErrors()), len(cl.ValidationErrors()))
 	case "base.getters":
 		s := obs.Take(o.base)
 		return s.Href + "|" + s.Host + "|" + s.Pathname + "|" + s.Search + "|" + s.Hash + fmt.Sprint(s.DecodedPort, s.IPv4, s.IPv6, s.Opaque, s.Special)
@@ -294,11 +295,16 @@ func (m c14) Exec(ctx *core.Ctx, cs *core.Case) {
 	// fresh shared objects and an independent twin
 	baseStr := gen.ParseableBase(r)
 	if r.IntN(4) == 0 {
-		baseStr = gen.Pick(r, []string{"http://h/a/b?x=1&y=2#f", "http://1.2.3.4:81/p?q", "file:///C:/a/b?q", "a://h/p?a=b", "http://[::1]/?a=1%2B1", "sc:opaque path  #frag", "a:p  ", "data:text/plain,x  ?q", "http://h/?", "file:///a/b"})
+		baseStr = gen.Pick(r, []string{"http://h/a/b?x=1&y=2#f", "http://1.2.3.4:81/p?q", "file:///C:/a/b?q", "a://h/p?a=b", "http://[::1]/?a=1%2B1", "sc:opaque path  #frag", "a:p  ", "data:text/plain,x  ?q", "http://h/?", "file:///a/b",
+			// one to seven recorded validation entries (a slice with spare capacity behind its length)
+			"http://h/ x", "http://h/  x", "http://h/   x", "http://h/    x", "http://h/     x", "http://h/      x", "http://h/       x?q= #f "})
 	}
 	cfg := randomConfig(r)
 	for len(cfg) == 1 && len(cfg[0]) > 8 && cfg[0][:8] == "profile:" {
 		cfg = randomConfig(r)
+	}
+	if r.IntN(4) == 0 && !hasOpt(cfg, "report") {
+		cfg = append(cfg, "report") // recorded validation entries are state a clone or result could share
 	}
 	mk := func() (*c14objs, bool) {
 		p := buildParser(cfg)
